@@ -19,7 +19,7 @@ func init() {
 		Name:  "EXEC",
 		Doc:   "who may run user code; the planning run is zeroed; run-once memoization",
 		Run:   runExec,
-		Floor: map[string]int{"EXEC-X1": 5, "EXEC-X2": 4, "EXEC-X3": 1, "EXEC-X4": 1, "EXEC-X5": 2, "EXEC-X6": 1, "EXEC-X7": 1, "EXEC-X8": 3, "ONCE-O1": 2, "ONCE-O2": 2, "ONCE-O4": 3, "ONCE-O5": 1},
+		Floor: map[string]int{"EXEC-X1": 5, "EXEC-X2": 4, "EXEC-X3": 2, "EXEC-X4": 1, "EXEC-X5": 2, "EXEC-X6": 1, "EXEC-X7": 1, "EXEC-X8": 3, "ONCE-O1": 2, "ONCE-O2": 2, "ONCE-O4": 3, "ONCE-O5": 1, "ONCE-O6": 1},
 	})
 }
 
@@ -436,6 +436,60 @@ func runExec(c *Ctx) {
 		}
 	}
 	c.R.Add("EXEC-X3", "zeroBody|no-user-code", "zeroBody", p.Pos(zero.Pos()), bad == "", "the zero-producing stand-in calls no user function", ternary(bad == "", "no reflective or dynamic call", bad))
+
+	// the stand-in is installed with the wrapped function's own type (reflect.MakeFunc(f.fn.Type(), …)), so what it
+	// returns must be rendered by the packer of the call family — the one that re-wraps struct pointers to the
+	// declared depth — not by the built-function renderer, which ignores pointer depth
+	{
+		var packers []*ssa.Function
+		for _, g := range p.ArgFuncs() {
+			if g.Parent() != nil || g.Signature.Results().Len() != 1 || core.TypeStr(g.Signature.Results().At(0).Type()) != "[]reflect.Value" {
+				continue
+			}
+			if len(core.Calls(g, "(reflect.Value).Addr")) > 0 {
+				packers = append(packers, g)
+			}
+		}
+		okP, why := false, "no result renderer that re-wraps struct pointers found"
+		if len(packers) > 0 {
+			why = "the stand-in's results do not come from the pointer-depth-aware renderer " + core.FuncName(packers[0])
+			var rets []*ssa.Return
+			for _, g := range core.WithNested(zero) {
+				if g.Signature.Results().Len() == 1 && core.TypeStr(g.Signature.Results().At(0).Type()) == "[]reflect.Value" {
+					rets = append(rets, core.Returns(g)...)
+				}
+			}
+			for _, r := range rets {
+				for _, v := range r.Results {
+					for _, sv := range p.ISources(v) {
+						if cl, ok := sv.(*ssa.Call); ok {
+							for _, pk := range packers {
+								if cl.Common().StaticCallee() == pk {
+									okP, why = true, "results rendered by "+core.FuncName(pk)
+								}
+							}
+						}
+					}
+					// appended onto the renderer's result (the trailing nil error)
+					for _, sv := range core.Sources(v) {
+						if ap, ok := sv.(*ssa.Call); ok && core.CalleeName(ap.Common()) == "builtin.append" {
+							for _, s2 := range p.ISources(ap.Common().Args[0]) {
+								if cl, ok := s2.(*ssa.Call); ok {
+									for _, pk := range packers {
+										if cl.Common().StaticCallee() == pk {
+											okP, why = true, "results rendered by "+core.FuncName(pk)+" (plus the trailing error)"
+										}
+									}
+								}
+							}
+						}
+					}
+				}
+			}
+		}
+		c.R.Add("EXEC-X3", "zeroBody|results-match-declared-type", "zeroBody", p.Pos(zero.Pos()), okP,
+			"the stand-in, which is installed with the wrapped function's own type, renders its results with the packer that restores the declared pointer depth of a struct result", why)
+	}
 
 	// ---- X4: Func.fn is stored only on fresh objects (constructor literal, the planner's copy)
 	n := 0
@@ -903,6 +957,28 @@ func runOnce(c *Ctx, exec *ssa.Function, fnField, onceField, memoField string) {
 				}
 			}
 		})
+	}
+	// O6: a Func is never copied by value outside the planner's stand-in step: a copy made before the first execution
+	// has a memo of its own, so the original and the copy would each run the body once
+	{
+		n := 0
+		planner := p.MustRole("planner")
+		for _, f := range p.ArgFuncs() {
+			core.Instrs(f, func(in ssa.Instruction) {
+				ld, ok := in.(*ssa.UnOp)
+				if !ok || ld.Op != token.MUL || core.NamedOf(ld.Type()) != "Func" {
+					return
+				}
+				if _, isStruct := ld.Type().Underlying().(*types.Struct); !isStruct {
+					return
+				}
+				n++
+				inPlanner := planner != nil && p.InRegion(core.Outer(f), planner)
+				c.R.Add("ONCE-O6", fmt.Sprintf("%s|func-copied-by-value#%d", ternary(inPlanner, "planner", core.FuncName(f)), n), core.FuncName(f), p.InstrPos(in), inPlanner,
+					"a Func is copied by value only by the planner's stand-in step (a copy carries its own run-once flag and memo: uses through the copy and through the original would each execute the body)",
+					ternary(inPlanner, "the planner's stand-in copy (its memo handling is EXEC-X4/X6's business)", "by-value copy of a Func"))
+			})
+		}
 	}
 	c.R.Add("ONCE-O5", "memo|read-only-by-executor", "(package)", "-", reader == "", "the run-once memo is read only by the executor", ternary(reader == "", "no other reader", "also read by "+reader))
 	_ = strings.Join
